@@ -44,7 +44,11 @@ var workloads = []workload{
 	{"race-resources", "resource", nil, false, false, true},
 	{"race-templates", "template", nil, false, false, true},
 	{"race-notifs", "notif", nil, false, true, true},
+	// user callbacks that register / unregister while they run, slow callbacks (reent.go)
+	{reentName, "all", nil, false, true, false},
 }
+
+const reentName = "reentrant"
 
 type wlog struct {
 	S, E int64
@@ -76,6 +80,7 @@ type childResult struct {
 	Overlapping int            `json:"overlapping"` // observations whose window contained a write
 	Violations  []hk.Violation `json:"violations"`
 	WallS       float64        `json:"wall_s"`
+	Runs        []reentRun     `json:"runs,omitempty"` // reentrant workload: completed cases as sequential histories
 }
 
 func fullName(kind, base string) string {
@@ -107,6 +112,9 @@ func childMain(name string) {
 	run := runWorkload
 	if wl.Race {
 		run = runRaceWorkload
+	}
+	if wl.Name == reentName {
+		run = runReentWorkload
 	}
 	res, err := run(*wl, seed, scale)
 	if err != nil {
@@ -663,6 +671,9 @@ func runConcurrent(c *hk.Ctx) {
 		if o.err != nil {
 			what := fmt.Sprintf("workload %s (%s registry: 3 writer goroutines registering / re-registering%s on disjoint names, 6 reader goroutines doing %v over 4 sessions): the process died", o.wl.Name, o.wl.Kind,
 				map[bool]string{true: " / unregistering", false: ""}[o.wl.Unreg], o.wl.Readers)
+			if o.wl.Name == reentName {
+				what = "workload reentrant (user callbacks that register / unregister / list while they run, one server per case): the process died"
+			}
 			if at := strings.Index(o.stderr, "fatal error: concurrent map"); at >= 0 {
 				line := o.stderr[at:]
 				if nl := strings.IndexByte(line, '\n'); nl >= 0 {
@@ -692,6 +703,17 @@ func runConcurrent(c *hk.Ctx) {
 		}
 		for _, v := range res.Violations {
 			c.Violate(v)
+		}
+		if o.wl.Name == reentName {
+			// completed re-entrancy cases are sequential histories: diffed with the model like the others
+			for _, r := range res.Runs {
+				c.Emit(map[string]any{"c": "registry.run", "ops": histJSON(r.Ops)}, map[string]any{"outs": r.Outs}, r.Mut, "reent:"+r.HK, "reent:"+r.Name)
+			}
+			for i := 0; i < res.Lists; i++ {
+				c.Count(fmt.Sprintf("conc:%s:slow:%d", o.wl.Name, i), true, nil, "reent:while-a-callback-runs")
+			}
+			extra[o.wl.Name] = map[string]any{"reentrant_cases": res.Calls, "completed": len(res.Runs), "operations_during_a_parked_callback": res.Lists, "wall_s": res.WallS}
+			continue
 		}
 		n := res.Lists + res.Calls
 		for i := 0; i < n; i++ {
